@@ -378,6 +378,7 @@ impl<'a> Exec<'a> {
             ));
         }
         if let Some(r) = pre.rec {
+            let mut visited: BTreeSet<Path> = BTreeSet::new();
             for f in &w.mmu_log {
                 if f.pa.is_none() {
                     return Err(viol(&["C20", "C01", "C09"], "recursive-access-not-present", i, format!("{} dereferenced {:#x}, which the MMU resolves to not-present", step.opname(), f.va)));
@@ -402,12 +403,42 @@ impl<'a> Exec<'a> {
                         None => true,
                     },
                 };
+                visited.insert(p);
                 if !ok {
                     return Err(viol(
                         &["C20"],
                         "recursive-address",
                         i,
                         format!("{} dereferenced recursive address {:#x} = table path {} which is not a table on the path of its page (recursive index {})", step.opname(), f.va, p.fmt(), r),
+                    ));
+                }
+            }
+            // clean-up reaches every table that overlaps the range through that table's own
+            // recursive address (aliases were dropped before the call, so every table page the call
+            // touches appears in the fault log exactly once)
+            if let Some((start, end)) = match step {
+                Step::CleanUp => Some((0u64, 0xffff_ffff_ffff_f000u64)),
+                Step::CleanUpRange { start, end } => Some((*start, *end)),
+                _ => None,
+            } {
+                let end_last = end | 0xfff;
+                let mut expected: BTreeSet<Path> = BTreeSet::new();
+                expected.insert(Path::ROOT);
+                if start <= end {
+                    for p in pre.tables.keys() {
+                        if p.len > 0 && !(p.last_va() < start || p.va() > end_last) {
+                            expected.insert(*p);
+                        }
+                    }
+                }
+                if visited != expected {
+                    let missing: Vec<String> = expected.difference(&visited).map(|p| p.fmt()).collect();
+                    let extra: Vec<String> = visited.difference(&expected).map(|p| p.fmt()).collect();
+                    return Err(viol(
+                        &["C20", "C10"],
+                        "recursive-address-set",
+                        i,
+                        format!("{} [{start:#x}, {end:#x}] with recursive index {r}: tables overlapping the range that were never dereferenced through their recursive address: {missing:?}; dereferenced but not overlapping: {extra:?}", step.opname()),
                     ));
                 }
             }
@@ -542,6 +573,7 @@ impl<'a> Exec<'a> {
         self.rs.released_this_call.clear();
         self.rs.ftp_log.clear();
         w.allowed = pre.table_frames().collect();
+        w.rec_drop_aliases();
         let out = call(step);
         self.stats.calls += 1;
         let w = world();
@@ -550,7 +582,14 @@ impl<'a> Exec<'a> {
         self.fold_events(&out, &log);
 
         if let Some(msg) = &out.panic {
-            return Err(viol(&["C01", "C02"], "panic", i, format!("{name} panicked: {msg}")));
+            let mut props = vec!["C01", "C02"];
+            if matches!(step, Step::CleanUp | Step::CleanUpRange { .. }) {
+                props.insert(0, "C10");
+            }
+            if msg.contains("RecursivePageTable::new failed") {
+                props.insert(0, "C20");
+            }
+            return Err(viol(&props, "panic", i, format!("{name} panicked: {msg}")));
         }
         self.check_accesses(i, step, &pre)?;
 
@@ -762,6 +801,7 @@ impl<'a> Exec<'a> {
         self.rs.alloc.begin_call(0);
         self.rs.dealloc_obs.clear();
         self.rs.released_this_call.clear();
+        w.rec_drop_aliases();
         let out2 = call(step);
         self.stats.calls += 1;
         if let Some(msg) = out2.panic {
